@@ -190,7 +190,30 @@ def st_var_wiring():
     ], cfg_extra=cfg)
 
 
-CHEAP = [st_liesel_graph, st_liesel_build, st_var_wiring]
+def st_chain():
+    from harness import growth_driver as D
+
+    rng = random.Random(7)
+    while True:
+        t = D.chain_trace(rng, True, 25)
+        ig = next((i for i, e in enumerate(t["ev"]) if e["ev"] == "get" and len(e["items"]) > 1), None)
+        ic = next((i for i, e in enumerate(t["ev"]) if e["ev"] == "combine" and len(e["items"]) > 1), None)
+        if ig is not None and ic is not None:
+            break
+    cfg = "CONSTANTS ApplyThinning = TRUE MaxEpochs = 99 MaxItems = 100000 Thins = {} Sizes = {}\n"
+
+    def c1(tr):
+        tr["ev"][ig]["items"][-1] += 1
+
+    def c2(tr):
+        tr["ev"][ic]["items"].reverse()
+    return _run("Chain", "Trace_Chain.tla", t, [
+        ("an item that thinning should have dropped", c1, ig + 1, "thinning_keeps_every_th_item_whatever_the_chunking"),
+        ("combined epochs in the wrong order", c2, ic + 1, "combine_concatenates_in_the_given_order"),
+    ], cfg_extra=cfg)
+
+
+CHEAP = [st_liesel_graph, st_liesel_build, st_var_wiring, st_chain]
 ALL = CHEAP + [st_mh, st_da, st_engine, st_results]
 
 
